@@ -936,6 +936,7 @@ func (f *FuncCtx) builtin(name string, e *ast.CallExpr, env *Env) []Val {
 		}
 		k := f.coerce(ev(1), mt.Key())
 		m = f.name(m, "m")
+		f.countCall("delete", []Val{m, k}, e, env)
 		f.assign(e.Args[0], Val{T: f.mapDelete(m, k, mt), Typ: m.Typ}, env)
 		return nil
 	case "copy":
